@@ -510,6 +510,9 @@ func runC10(r *Run) {
 		return
 	}
 
+	// maximum-size optional terms: allow / deny lists around and beyond 65535 bytes of TLV value (1985 / 1986 ids)
+	c.orderLargeLists()
+
 	// readers concurrent with writers on other objects (child process, ~3 s each)
 	nConc := 1
 	if r.Tier == "thorough" || r.Search {
